@@ -41,6 +41,7 @@ type World struct {
 	RepoDir string
 	Tier    string
 	parents map[ast.Node]ast.Node // lazily built per file
+	declIndex map[*ast.FuncDecl]*Fn
 	cg      *CallGraph
 	vta     *vtaInfo
 	// named types of the repo (for CHA resolution of interface calls)
@@ -411,6 +412,19 @@ func (f *Fn) LitVar(v string) *Fn {
 	for _, l := range f.Lits {
 		if l.Bound != nil && l.Bound.Name() == v {
 			return l
+		}
+	}
+	// the local was renamed: identify the closure by what it does (ruleutil.go, litRoles)
+	if role, ok := litRoles[f.Name+"$"+v]; ok {
+		sel := role(f.W)
+		var hit []*Fn
+		for _, l := range f.Lits {
+			if l.Bound != nil && len(l.Sites(sel)) > 0 {
+				hit = append(hit, l)
+			}
+		}
+		if len(hit) == 1 {
+			return hit[0]
 		}
 	}
 	panic(anchorError{"closure " + v + " in " + f.Name})
